@@ -296,6 +296,29 @@ def run(ctx):
                           'parse_sql ends in %s on a long but flat input (%d characters)' % (fin_[:120], len(sql_)),
                           {'sql': sql_[:300] + ' ...', 'length': len(sql_), 'dialect': d_, 'kind': 'long-flat', 'final': fin_[:200]})
     ctx.cov['long_flat_inputs'] = len(cases_flat)
+    # two clauses / options / list items of one statement together (derivation trees at the self-recursive nonterminals of the
+    # exported grammars), constants of every kind at the `constant` positions, string positions spelled with dates (with and
+    # without a time zone), numbers, JSON and SQL text: outcome only
+    from . import grammargen as _gg2
+    combo = []
+    for d_ in DIALECTS:
+        depth_ = 3 if thorough else 2.5
+        combo += [(t_, d_) for t_, _ty, _u in _gg2.pair_cover_texts(ctx, d_, depth=depth_, seed=4101)]
+        combo += [(t_, d_) for t_, _ty, _u in _gg2.const_kind_texts(d_, _gg2.cover_sentences(d_, override={'constant': [_gg2.CONST]}), 4101)]
+        for sents_ in (_gg2.cover_sentences(d_, override={'string': [_gg2.CONST]}),
+                       _gg2.pair_cover_sentences(d_, 2, override={'string': [_gg2.CONST]})):
+            more_ = [(t_, d_) for t_, _ty, _u in _gg2.const_kind_texts(d_, sents_, 4101, bases=_gg2.STRING_BASES, alts=_gg2.STRING_ALTS)]
+            cap_ = 40000 if thorough else 7000      # (sqlite's shortest expression is a string: every expression position qualifies)
+            combo += more_ if len(more_) <= cap_ else more_[::len(more_) // cap_ + 1]
+    combo = sorted(set(combo))
+    n_combo_tree = 0
+    for (sql_, d_), fin_ in zip(combo, pmap(_outcome_only, combo, chunksize=64)):
+        n_combo_tree += fin_ == 'tree'
+        if fin_.split(':')[0] not in ('tree', 'ParsingException', 'LexError'):
+            ctx.violation('internal:%s:clause-combination:%s' % (fin_.split(':')[1] if ':' in fin_ else fin_, d_),
+                          'parse_sql ends in %s on a combination of clauses / kinds of constants' % fin_[:160],
+                          {'sql': sql_, 'dialect': d_, 'kind': 'clause-combination', 'final': fin_[:200]})
+    ctx.cov['clause_combinations'] = {'inputs': len(combo), 'accepted': n_combo_tree}
     outcomes = {}
     n_valid = 0
     samples = []
